@@ -411,7 +411,7 @@ def gen_consts(repo):
             f"(* ColorsConfig.add_new_items: 'if any(new id): self._cache = {{}}' is present *)\n"
             f"Definition reset_cache_on_new : bool := {SX.cbool(ex['reset'])}.\n"
             + "".join(f"Definition {n} : Z := {_cls_index(ex, *mq)}.\n" for n, mq in names.items())
-            + f"Definition acc_text : Z := {aid['text']}.\n")
+            + "".join(f"Definition acc_{a} : Z := {aid[a]}.\n" for a in ("text", "name", "number", "keyword")))
     return {"C10_Consts": text}
 
 
@@ -604,7 +604,9 @@ def _rand_history(rng, big):
     objs = []
     for _ in range(rng.randrange(1, 4)):
         k = rng.choice(["json", "table", "table", "rec", "ghist", "hdoc"])
-        if k == "json":
+        if k == "json" and rng.random() < 0.1:
+            objs.append(_threshold_json(rng))       # a value AT the one-line / wrapping thresholds inside a random history
+        elif k == "json":
             objs.append({"k": "json", "v": _fix_keys(_rand_json(rng)), "fj": rng.random() < 0.3})
         elif k in ("table", "rec"):
             objs.append(_rand_table(rng, nfts, k))
@@ -710,9 +712,276 @@ def _synced_case(rng):
     return {"fts": [], "objs": [obj], "ops": ops}
 
 
+# ---------------------------------------------------------------------- objects AT the layout thresholds
+# Every layout decision of the formatters (one line or several, where a long list wraps, how much a cell is
+# padded or truncated, how wide a column / the table is, where the continuation lines of a report start) must be
+# taken on the visible text.  A decision taken on a coloured string only shows on objects that reach the
+# thresholds (pretty-printer: 200 characters for the one-line form, 150 per line of a wrapped list; tables and
+# record formatters: cells longer / exactly as long / shorter than the column, headers and footers longer than
+# the table, the 'skipped' line) rendered under a configuration that colours the measured pieces.  The generators
+# below aim the sizes AT those thresholds (+-3 characters) and render under configurations that colour everything,
+# TEXT included.
+def _all_colours(rng, text=True):
+    """user content that gives every package syntax id a colour of its own (no parents: nothing dangling)"""
+    items = {}
+    for s in PKG_SYNTS:
+        if s == "TEXT" and not text:
+            continue
+        items[s] = rng.choice(COLORS[1:]) + rng.choice(["", "", ":bold"])
+    return items
+
+
+def _plain_len(v, fj):
+    """visible length of a simple value in the pretty-printer (aims the generator only; never an oracle)"""
+    if isinstance(v, str):
+        return len(v) + 2
+    if v is True:
+        return 4
+    if v is False:
+        return 5
+    if v is None:
+        return 4
+    if isinstance(v, (list, dict)):
+        return 2
+    return len(str(v))
+
+
+def _rand_simple(rng, kinds):
+    k = rng.choice(kinds)
+    if k == "n":
+        return rng.choice([rng.randrange(10), rng.randrange(-999, 100000), rng.randrange(10 ** 9, 10 ** 13), 1.5, -0.25, 0])
+    if k == "k":
+        return rng.choice([True, False, None])
+    if k == "s":
+        return "".join(rng.choice("abcdefgh XYZ_-") for _ in range(rng.randrange(0, 14)))
+    return rng.choice([[], {}])
+
+
+def _rand_kinds(rng):
+    return rng.choice(["n", "k", "nk", "nks", "nkse", "s", "nnnk", "ksss", "nnnnnnns"])
+
+
+def _list_at(rng, total, fj, kinds):
+    """list of simple values whose one-line measure (texts + 2 per item) is exactly `total`"""
+    items = []
+    cur = 0
+    while True:
+        v = _rand_simple(rng, kinds)
+        l = _plain_len(v, fj) + 2
+        if cur + l > total - 4:
+            break
+        items.append(v)
+        cur += l
+    rest = total - cur - 4          # the closing item is a string: 2 quotes + 2 for the item itself
+    closing = "q" * max(rest, 0)
+    pos = rng.randrange(len(items) + 1)
+    items.insert(pos, closing)
+    return items
+
+
+def _dict_at(rng, total, fj, kinds):
+    """dict of simple values whose one-line measure is exactly `total` ({ + k: v pairs joined by ', ' + })"""
+    d = {}
+    cur = 2
+    i = 0
+    while True:
+        key = rng.choice(["k", "key", "id", "name_of_it"]) + str(i)
+        v = _rand_simple(rng, kinds)
+        l = len(key) + 2 + 2 + _plain_len(v, fj) + 2
+        if cur + l > total - 12:
+            break
+        d[key] = v
+        cur += l
+        i += 1
+    key = "z" + str(i)
+    rest = total - cur - (len(key) + 2 + 2 + 2) - (2 if d else 0)
+    if rng.random() < 0.5:
+        items = list(d.items())
+        items.insert(rng.randrange(len(items) + 1), (key, "q" * max(rest, 0)))
+        d = dict(items)
+    else:
+        d[key] = "q" * max(rest, 0)
+    return d
+
+
+def _wrap_list(rng, fj, kinds):
+    """long list of simple values: several lines of 150; now and then one item longer than a line"""
+    n = rng.choice([30, 45, 60, 90, 140])
+    items = [_rand_simple(rng, kinds) for _ in range(n)]
+    if rng.random() < 0.25:
+        items.insert(rng.randrange(n), "L" * rng.choice([146, 147, 148, 149, 150, 151, 160]))
+    if not any(True for v in items if _plain_len(v, fj) > 0) or sum(_plain_len(v, fj) + 2 for v in items) < 200:
+        items += [123456789] * 25
+    return items
+
+
+def _threshold_json(rng):
+    fj = rng.random() < 0.4
+    kinds = _rand_kinds(rng)
+    shape = rng.choice(["list", "list", "dict", "wrap", "wrap", "mixed"])
+    depth = rng.choice([0, 0, 1, 2])        # the container sits at offset 2 * depth
+    delta = rng.choice([-3, -2, -1, 0, 0, 1, 2, 3, 9])
+    total = 200 - 2 * depth + delta
+
+    def nest(v, depth):
+        for d in range(depth):
+            if rng.random() < 0.6:
+                v = {"a": 1, "deep": v} if rng.random() < 0.5 else {"deep": v}
+            else:
+                v = [v, [1, [2]]] if rng.random() < 0.5 else [[0, [1]], v]
+        return v
+    if shape == "list":
+        v = nest(_list_at(rng, total, fj, kinds), depth)
+    elif shape == "dict":
+        v = nest(_dict_at(rng, total, fj, kinds), depth)
+    elif shape == "wrap":
+        v = nest(_wrap_list(rng, fj, kinds), depth)
+    else:
+        v = {"short": [1, True, "x"], "at": _list_at(rng, 198 + delta, fj, kinds), "d": _dict_at(rng, 198 - delta, fj, kinds),
+             "w": {"inner": _wrap_list(rng, fj, kinds)}, "n": None}
+    return {"k": "json", "v": _fix_keys(v), "fj": fj}
+
+
+LONGWORDS = ["", "a", "ab", "abc", "abcd", "abcde", "Blocked", "a longer cell", "x" * 19, "x" * 20, "x" * 21, "quite a long text that never fits anywhere"]
+
+
+def _threshold_table(rng, kind="table"):
+    """table / record formatter whose cells are longer than, exactly as long as and shorter than their columns
+    (all four field kinds: number, keyword, text, enum), with headers / footers / skipped lines around the table width"""
+    nfts = rng.randrange(1, 3)
+    fts = []
+    for _ in range(nfts):
+        vals = rng.sample([1, 2, 3, 10, 20, 300, 4000, "A", "BB"], rng.randrange(2, 5))
+        fts.append({"values": [[v, rng.choice(["Active", "Blocked", "New", "Old", "x", "Waiting for it"]),
+                                rng.choice([None, "name_good", "name_warn", "error", "number", "keyword"])] for v in vals],
+                    "missing": rng.choice([None, None, ["<?>", "error"]])})
+    fields = ["id", "nm", "kw", "st"] + (["s2"] if rng.random() < 0.4 else [])
+    ftmap = {"st": rng.randrange(nfts)}
+    if "s2" in fields:
+        ftmap["s2"] = rng.randrange(nfts)
+    nrec = 1 if kind == "rec" else rng.randrange(1, 7)
+    recs = []
+    for _ in range(nrec):
+        r = [rng.choice([rng.randrange(10), rng.randrange(-99, 3000), rng.randrange(10 ** 6, 10 ** 9), 2.5, None, True]),
+             rng.choice(LONGWORDS[:-1] if kind == "rec" else LONGWORDS), rng.choice([True, False, None, 7, "no"])]
+        for f in fields[3:]:
+            r.append(rng.choice([1, 2, 3, 10, 20, 300, 4000, "A", "BB", None, 77, 123456]))
+        recs.append(r)
+    widths = ["1", "2", "3", "4", "5", "7", "2-6", "1-20", "8", "3-3", "0-2", "20", "19-21", "6-30"]
+    cols = []
+    for f in fields:
+        if rng.random() < 0.12 and kind == "table":
+            continue
+        c = f
+        if f in ftmap and rng.random() < 0.7:
+            c += "/" + rng.choice(["full", "val", "name"])
+        if f in ("id", "kw") and rng.random() < 0.15 and kind == "table":
+            c += "!"
+        if kind == "rec":
+            # a record formatter cannot truncate (PPRecordPalette has no 'warn' accessor: fit_to_width raises
+            # AttributeError in every colour mode -- noted in c10.notes.md, not a C10 matter): padding only
+            if rng.random() < 0.75:
+                c += ":" + (rng.choice(["60", "52-70", "6-80"]) if f in ftmap else rng.choice(["21", "19-21", "6-30", "1-21", "9-44"]))
+        elif rng.random() < 0.75:
+            c += ":" + rng.choice(widths)
+        cols.append(c)
+    if not cols:
+        cols = ["nm:" + rng.choice(widths)]
+    fmt = ",".join(cols)
+    if kind == "table" and rng.random() < 0.35:
+        fmt += ";" + rng.choice(["1:1", "*", "2:0", "0:1", "1:2"])
+    spec = {"k": kind, "fields": fields, "ft": ftmap, "fmt": fmt}
+    if kind == "rec":
+        spec["rec"] = recs[0]
+    else:
+        spec["recs"] = recs
+        spec["header"] = rng.choice([None, "H", "Hdr", "a longer table header text", "h" * rng.randrange(4, 40)])
+        spec["footer"] = rng.choice([None, "", "done", "f" * rng.randrange(4, 40), "a footer that is much longer than the whole table is wide"])
+        spec["titles"] = rng.choice([None, None, {"id": "Id\nnum"}, {"nm": ["Name", 7]}, {"st": "a long title of the column", "kw": [True, "kw"]},
+                                     {"id": 123456, "nm": "N\n\nlonger title"}])
+    return fts, spec
+
+
+def _threshold_ghist(rng):
+    """report whose build lines have continuation lines (second and later 'included at' entries start under the
+    first one: the offset is measured on the title line), bumps with several origins, author names around 18"""
+    def bn():
+        return rng.choice([[1, 2, rng.randrange(5000)], [10, 20, 30, 31], [rng.randrange(100), rng.randrange(1000), rng.randrange(10)], "nb", "nm"])
+    repos = []
+    for ri in range(rng.randrange(1, 3)):
+        branches = []
+        for bi in range(rng.randrange(1, 3)):
+            builds = []
+            for _ in range(rng.randrange(1, 4)):
+                builds.append({"bn": bn(), "date": rng.choice([None, 1600000000 + rng.randrange(10 ** 6)]),
+                               "incl": [[rng.choice(["par", "a_parent_repository"]), rng.choice(["release/1", "m"]), bn()] for _ in range(rng.randrange(0, 4))],
+                               "bumps": [["lib" + str(i), bn(), [bn() for _ in range(rng.randrange(0, 4))]] for i in range(rng.randrange(0, 3))],
+                               "commits": [{"sha": "%040x" % rng.getrandbits(160), "date": 1600000000 + rng.randrange(10 ** 6),
+                                            "author": "N" * rng.choice([0, 1, 5, 17, 18, 19, 30]), "msg": rng.choice(["fix BUG-1\nbody", "  BUG-1 more  ", ""])}
+                                           for _ in range(rng.randrange(0, 4))]})
+            branches.append({"name": rng.choice(["release/%d" % bi, "b%d" % bi]), "builds": builds})
+        repos.append({"id": rng.choice(["repo%d", "r%d", "the_long_repo_name_%d"]) % ri, "branches": branches})
+    return {"k": "ghist", "repos": repos}
+
+
+def _threshold_hdoc(rng):
+    """console help whose attribute names (padded to the longest one), argument lists and tags vary in length"""
+    if rng.random() < 0.35:
+        return {"k": "hdoc", "kind": "func", "name": rng.choice(["f", "do_it", "a_function_with_a_long_name"]),
+                "args": [a for a in ["a", "b_long_argument_name", "k=1", "*args", "**kw"] if rng.random() < 0.6],
+                "doc": rng.choice(["Short.\n\n    body line\n      indented more\n\n    #tag1 #t2 #a_long_tag\n    ", "Only short", "S.\n\n    #zz\n    ", ""])}
+    attrs = [["x", "the x"], ["missing", "not there"], ["x_longer_name", "another"], ["none5", "five"]]
+    rng.shuffle(attrs)
+    return {"k": "hdoc", "kind": "cls", "name": "TCls", "attrs": attrs[:rng.randrange(0, 5)],
+            "methods": [["m1", ["p"], "Method one.\n\n        #grp\n        "], ["m2", [], "Second.\n\n        more\n        "],
+                        ["method_three", ["a", "b=2"], "Third.\n\n        #grp #other\n        "]][:rng.randrange(1, 4)],
+            "doc": "Class doc.\n\n    details\n    "}
+
+
+def _threshold_case(rng, what=None):
+    """one or two objects AT the layout thresholds, rendered coloured and no_color under a configuration that
+    colours every syntax id (TEXT included, so that fillers and separators carry escapes too), under the default
+    configuration and under a random one, whole and by line"""
+    what = what or rng.choice(["json", "json", "json", "table", "table", "rec", "ghist", "hdoc"])
+    fts = []
+    if what == "json":
+        objs = [_threshold_json(rng)]
+    elif what in ("table", "rec"):
+        fts, spec = _threshold_table(rng, what)
+        objs = [spec]
+        if rng.random() < 0.3:
+            # a second table / record formatter over the same enum field types (shared cell caches)
+            fts2, spec2 = _threshold_table(rng, rng.choice(["table", "rec"]))
+            spec2["ft"] = {f: rng.randrange(len(fts)) for f in spec2["ft"]}
+            objs.append(spec2)
+    elif what == "ghist":
+        objs = [_threshold_ghist(rng)]
+    else:
+        objs = [_threshold_hdoc(rng)]
+    confs = [["newconf", 0, False, _all_colours(rng)],
+             ["newconf", 1, False, rng.choice([{}, _all_colours(rng, text=False), _rand_conf_items(rng, 4)])]]
+    ops = list(confs)
+    if what == "hdoc":
+        ops += [["setglobal", 0], ["newh", 0, 2], ["help", 0, 0], ["newh", 1, 1], ["help", 1, 0],
+                ["setglobal", 1], ["newh", 2, rng.choice([1, 2])], ["help", 2, 0]]
+        return {"fts": fts, "objs": objs, "ops": ops, "thr": 1}
+    plan = []
+    for o in range(len(objs)):
+        mode = lambda: 0 if objs[o]["k"] == "rec" else rng.choice([0, 0, 1, 2, 3])
+        plan += [["render", o, 0, False, "none", mode()], ["render", o, 0, True, "none", mode()], ["render", o, 1, False, "none", mode()]]
+        if rng.random() < 0.3:
+            plan.append(["render", o, None, False, ["obj", 0], mode()])
+    if rng.random() < 0.5:
+        rng.shuffle(plan)
+    return {"fts": fts, "objs": objs, "ops": ops + plan, "thr": 1}
+
+
 def gen_cases(rng, tier):
     big = tier == "thorough"
     cases = [_rand_history(rng, big) for _ in range(4000 if big else 420)]
+    # objects AT the layout thresholds: a fixed share per object kind (never left to chance in the quick tier)
+    for what, n in (("json", 36), ("table", 30), ("rec", 8), ("ghist", 8), ("hdoc", 8)):
+        cases += [_threshold_case(rng, what) for _ in range(n * 10 if big else n)]
     cases += [_reg_case(rng) for _ in range(200 if big else 12)]
     cases += [_synced_case(rng) for _ in range(200 if big else 12)]
     cases += [_hunt_case(rng) for _ in range(12 if big else 3)]
@@ -720,13 +989,13 @@ def gen_cases(rng, tier):
 
 
 def search_cases(rng, tier):
-    return [_hunt_case(rng) for _ in range(30)] + [_reg_case(rng) for _ in range(60)] + [_synced_case(rng) for _ in range(60)] + [_rand_history(rng, True) for _ in range(600)]
+    return [_threshold_case(rng) for _ in range(240)] + [_hunt_case(rng) for _ in range(30)] + [_reg_case(rng) for _ in range(60)] + [_synced_case(rng) for _ in range(60)] + [_rand_history(rng, True) for _ in range(600)]
 
 
 def kind(case):
     if case.get("hunt"):
         return "hunt"
-    return "+".join(sorted({o["k"] for o in case["objs"]}))
+    return ("threshold:" if case.get("thr") else "") + "+".join(sorted({o["k"] for o in case["objs"]}))
 
 
 # ====================================================================== implementation side
@@ -959,6 +1228,9 @@ def _hdoc_obj(s):
         f.__doc__ = s["doc"]
         return h_doc(f)
     body = f"class {s['name']}:\n    {s['doc']!r}\n    _HDOC_ATTRS = {[tuple(a) for a in s['attrs']]!r}\n    x = 5\n    missing = None\n"
+    for nm, _descr in s["attrs"]:
+        if nm not in ("x", "missing"):
+            body += f"    {nm} = {None if nm.startswith(('missing', 'none')) else 5!r}\n"
     for nm, args, doc in s["methods"]:
         body += f"    def {nm}({', '.join(['self'] + args)}):\n        {doc!r}\n"
     exec(body, ns)
@@ -1074,6 +1346,54 @@ class _Probe:
                 continue
             raise ExtractError(f"chunk with an unknown prefix in a probe rendering: {c!r}")
         return out
+
+
+def _jv(v, sortkey):
+    """json-like value -> the layout model's jv (Layout.v): ["s", text] | ["k", 0/1/2] | ["n", str(number)] | ["ed"] | ["el"] |
+    ["d", [[is_str, key text]], [values]] (keys in the implementation's printing order) | ["l", [values]];
+    None = a value the layout model does not cover (the probe's program is used then)"""
+    from numbers import Number
+    if isinstance(v, str):
+        return ["s", v]
+    for i, kw in enumerate((True, False, None)):
+        if v is kw:
+            return ["k", i]
+    if isinstance(v, dict):
+        if not v:
+            return ["ed"]
+        keys = sorted(v.keys(), key=sortkey)
+        vals = [_jv(v[k], sortkey) for k in keys]
+        if any(x is None for x in vals):
+            return None
+        return ["d", [[isinstance(k, str), k if isinstance(k, str) else str(k)] for k in keys], vals]
+    if isinstance(v, list):
+        if not v:
+            return ["el"]
+        vals = [_jv(x, sortkey) for x in v]
+        if any(x is None for x in vals):
+            return None
+        return ["l", vals]
+    if isinstance(v, Number) and not isinstance(v, bool):
+        return ["n", str(v)]
+    return None
+
+
+def _c_jv(j):
+    k = j[0]
+    if k == "s":
+        return f"JStr {SX.cstr(j[1])}"
+    if k == "k":
+        return f"JKw {j[1]}"
+    if k == "n":
+        return f"JNum {SX.cstr(j[1])}"
+    if k == "ed":
+        return "JEmptyD"
+    if k == "el":
+        return "JEmptyL"
+    if k == "d":
+        ks = SX.clist(f"{'KStr' if is_str else 'KRaw'} {SX.cstr(t)}" for is_str, t in j[1])
+        return f"JD {ks} {SX.clist('(' + _c_jv(x) + ')' for x in j[2])}"
+    return f"JL {SX.clist('(' + _c_jv(x) + ')' for x in j[1])}"
 
 
 def _consume(r, mode, kind):
@@ -1273,6 +1593,17 @@ def impl_run(case):
         oom, aliased = probe.oom, probe.aliased
     else:
         progs, ftdefs, oom, aliased = None, None, "extractor: " + extract_error, False
+    # 1b. pretty-printer values for the layout model (str() of numbers and the key order are oracle values)
+    jvs = []
+    for spec in case["objs"]:
+        j = None
+        if spec["k"] == "json":
+            try:
+                from ak.ppobj import PrettyPrinter
+                j = _jv(_unfix(spec["v"]), PrettyPrinter._mk_type_sort_value)
+            except Exception:  # noqa  e.g. keys the implementation cannot order: the rendering itself will raise
+                j = None
+        jvs.append(j)
     # 2. the history, with palette creations logged
     log = []
     orig_init = color.Palette.__init__
@@ -1310,7 +1641,7 @@ def impl_run(case):
     for rec, r in zip(recs, refs):
         if r:
             rec.update(r)
-    return {"progs": progs, "ftdefs": ftdefs, "ops": recs, "oom": oom, "aliased": aliased, "attempts": attempts}
+    return {"progs": progs, "ftdefs": ftdefs, "ops": recs, "oom": oom, "aliased": aliased, "attempts": attempts, "jvs": jvs}
 
 
 # ====================================================================== model side
@@ -1376,7 +1707,13 @@ def coq_case(case, obs):
             pa = op[4]
             cpa = f"(PObj {pa[1]})" if isinstance(pa, list) else {"none": "PNone", "synced": "PSynced"}[pa]
             copt = None if (isinstance(pa, list) or pa == "synced") else op[2]
-            ops.append(f"ORender {_c_obj(obs['progs'][op[1]])} {SX.copt(copt, SX.cZ)} {SX.cbool(op[3])} {cpa} {op[5]} {ids}")
+            j = (obs.get("jvs") or [None] * len(case["objs"]))[op[1]]
+            if j is not None:
+                # the layout of a pretty-printer value is COMPUTED by the model (Layout.v), not taken from the probe
+                cobj = f"(pp_obj {SX.cbool(case['objs'][op[1]]['fj'])} ({_c_jv(j)}))"
+            else:
+                cobj = _c_obj(obs['progs'][op[1]])
+            ops.append(f"ORender {cobj} {SX.copt(copt, SX.cZ)} {SX.cbool(op[3])} {cpa} {op[5]} {ids}")
         elif k == "newh":
             hlevel[op[1]] = op[2]
             ops.append(f"ONewH {op[1]} {ids}")
